@@ -1654,3 +1654,40 @@ package decimal128
 //@ loop 4: decreases exp
 //@ limit before "qexp := exp + exponentBias"
 //@ props C03 C15 C20
+
+// ---------------------------------------------------------------------------
+// PowWithMode (C18), partial: the shortcut ladder up to the infinite-exponent table. Everything after
+// "oSig, oExp := o.decompose()" (zero and infinite bases, parity of the exponent for negative bases,
+// the power-of-ten and square-root shortcuts, the general log/exp path) is outside this contract.
+// ---------------------------------------------------------------------------
+
+//@ func Decimal.isOne
+//@ ensures result <==> (!special(d) && bexp(d) <= 6176 && bexp(d) > 6176 - 39 && coef(d) == p10(6176 - bexp(d)))
+//@ props C18 C20
+
+//@ func Decimal.PowWithMode
+//@ define DOne = (!special(d) && bexp(d) <= 6176 && bexp(d) > 6176 - 39 && coef(d) == p10(6176 - bexp(d)))
+//@ define OOne = (!special(o) && bexp(o) <= 6176 && bexp(o) > 6176 - 39 && coef(o) == p10(6176 - bexp(o)))
+//@ define OZero = (!special(o) && coef(o) == 0)
+//@ define RisOne = (!special(r) && coef(r) == 1 && bexp(r) == 6176 && !sign(r))
+//@ define RisZero = (!special(r) && coef(r) == 0 && bexp(r) == 0 && !sign(r))
+//@ define RisInf = (isinf(r) && !sign(r) && lo(r) == 0)
+//@ returns (r)
+//@ logical V real
+//@ requires mode <= 5
+//@ requires OOne && sign(o) && !special(d) && coef(d) != 0 ==> V > 0 && rs(V, 12352 - bexp(d)) * coef(d) == 1
+//@ ensures OZero ==> RisOne
+//@ ensures !OZero && DOne && (!sign(d) || isinf(o)) ==> RisOne
+//@ ensures !OZero && !(DOne && (!sign(d) || isinf(o))) && OOne && !sign(o) ==> r == d
+//@ ensures !OZero && !(DOne && (!sign(d) || isinf(o))) && OOne && sign(o) && isnan(d) ==> r == d
+//@ ensures !OZero && !(DOne && (!sign(d) || isinf(o))) && OOne && sign(o) && !special(d) && coef(d) != 0 ==> sign(r) == sign(d) && !isnan(r)
+//@    && (isinf(r) ==> Ovf(mode, sign(r), rs(V, 12287)))
+//@    && (!special(r) ==> (rs(V, 0) < 0.1 && coef(r) == 0) || (rs(V, 0) >= 0.1 && RndOK(mode, sign(r), rs(V, bexp(r)), coef(r), bexp(r))))
+//@ ensures !OZero && !DOne && !OOne && isnan(d) ==> r == d
+//@ ensures !OZero && !DOne && !OOne && !isnan(d) && isnan(o) ==> r == o
+//@ ensures isinf(o) && !special(d) && coef(d) == 0 ==> ite(sign(o), RisInf, RisZero)
+//@ ensures isinf(o) && isinf(d) ==> ite(sign(o), RisZero, RisInf)
+//@ ensures isinf(o) && !special(d) && coef(d) != 0 && cmpmag(coef(d), bexp(d), 1, 6176) == 1 ==> ite(sign(o), RisZero, RisInf)
+//@ ensures isinf(o) && !special(d) && coef(d) != 0 && cmpmag(coef(d), bexp(d), 1, 6176) == 0 - 1 ==> ite(sign(o), RisInf, RisZero)
+//@ limit before "oSig, oExp := o.decompose()"
+//@ props C18 C15 C20
